@@ -157,7 +157,7 @@ def gen_perm_graph(rng, cap=1500, multiword=False):
 
 def gen_shear_matrix_graph(rng):
     """SMALL central state, LARGE reachable entries (beyond 8 / 16 / 31 bits): shears x -> x + a*y modulo m on 2-vectors or 2x2 states; small orbits."""
-    mod, a = rng.choice([(200, 37), (251, 100), (300, 7), (256, 129), (70000, 17500), (2**20, 2**18), (65536, 32769), (2**31, 2**29)])
+    mod, a = rng.choice([(200, 37), (251, 100), (300, 7), (256, 129), (70000, 17500), (2**20, 2**18), (65536, 49152), (2**31, 2**29)])          # every orbit has at most 300 states
     mats = [[[1, a], [0, 1]]] + ([[[1, mod - a], [0, 1]]] if rng.random() < 0.6 else []) + ([[[1, 0], [0, mod - 1]]] if rng.random() < 0.3 else [])
     m = rng.choice([1, 1, 2])
     return {"kind": "matrix", "mats": mats, "modulo": mod, "n": 2, "m": m, "central": [0, 1] if m == 1 else [1, 0, 0, 1]}
